@@ -19,12 +19,12 @@ import (
 // edge for which BlockEdge is true? A returned witness is such a path; nil means "no such path".
 type Query struct {
 	Fn        *ssa.Function
-	From      ssa.Instruction                    // start after this instruction; nil = entry
-	FromBlock *ssa.BasicBlock                    // alternative: start at the head of this block
-	Assume    []Fact                             // facts assumed at the start
-	Block     func(ssa.Instruction) bool         // path may not pass these (the "must pass" set)
+	From      ssa.Instruction                     // start after this instruction; nil = entry
+	FromBlock *ssa.BasicBlock                     // alternative: start at the head of this block
+	Assume    []Fact                              // facts assumed at the start
+	Block     func(ssa.Instruction) bool          // path may not pass these (the "must pass" set)
 	BlockEdge func(from, to *ssa.BasicBlock) bool // path may not take these edges
-	Target    func(ssa.Instruction) bool         // where the path must arrive
+	Target    func(ssa.Instruction) bool          // where the path must arrive
 	MaxStates int
 }
 
